@@ -109,7 +109,7 @@ def run_case(case, ctx):
     nt = any(it["k"] == "bb" or (it["k"] == "assign" and it["rhs"][0] not in ("id", "c")) for it in p["items"])
     users = set(p["inputs"]) | set(p["outputs"]) | set(p["wires"])
     tags = ["net_named_like_inner_gate"] if users & inner_gate_names(p) else []
-    return {"kind": "parse", "p": sp, "r": proj(c) if c is not None else {}, "exc": exc, "expect_reject": case["op"] == "reject",
+    return {"kind": "parse", "dialect": "verilog", "p": sp, "r": proj(c) if c is not None else {}, "exc": exc, "expect_reject": case["op"] == "reject",
             "text": text, "nontrivial": nt, "tags": tags}
 
 
